@@ -267,6 +267,57 @@ func badContexts(r *common.Rand) {
 			}
 		}
 	}
+	// mostly-valid stream: arguments that pass validation (index in range, scripts present once or
+	// matching), one in three then perturbed in a single field
+	nValid := 700
+	if c.Thorough() {
+		nValid = 6000
+	}
+	nonNil := func() *[]byte { return pool[1+r.Intn(len(pool)-1)] }
+	for k := 0; k < nValid; k++ {
+		nin := 1 + r.Intn(3)
+		o := &optsSpec{Idx: r.Intn(nin), Tx: &txSpec{Lock: []uint32{0, 1, 500000000}[r.Intn(3)], Version: []uint32{1, 2}[r.Intn(2)]}}
+		for i := 0; i < nin; i++ {
+			o.Tx.Ins = append(o.Tx.Ins, inSpec{Unlock: nonNil(), Seq: []uint32{0, 0xffffffff, 1 << 31}[r.Intn(3)]})
+		}
+		o.Prev = &prevSpec{Lock: nonNil()}
+		switch r.Intn(4) {
+		case 0:
+			o.NoWithScripts = true
+		case 1:
+			o.Lock, o.Unlock = o.Prev.Lock, o.Tx.Ins[o.Idx].Unlock
+		case 2:
+			o.Lock = o.Prev.Lock
+		case 3:
+			o.Unlock = o.Tx.Ins[o.Idx].Unlock
+		}
+		if r.Chance(20) { // scripts only, no transaction
+			o.NoWithTx, o.NoWithScripts = true, false
+			o.Lock, o.Unlock = nonNil(), nonNil()
+		} else if r.Chance(20) { // transaction without previous output: scripts must come from WithScripts
+			o.Prev, o.NoWithScripts = nil, false
+			o.Lock, o.Unlock = nonNil(), o.Tx.Ins[o.Idx].Unlock
+		}
+		if r.Chance(33) {
+			switch r.Intn(6) {
+			case 0:
+				o.Idx = idxs[r.Intn(len(idxs))]
+			case 1:
+				o.Tx.Ins[r.Intn(len(o.Tx.Ins))].Unlock = pick()
+			case 2:
+				if o.Prev != nil {
+					o.Prev.Lock = pick()
+				}
+			case 3:
+				o.Lock = pick()
+			case 4:
+				o.Unlock = pick()
+			case 5:
+				o.Tx.Ins = o.Tx.Ins[:r.Intn(len(o.Tx.Ins))]
+			}
+		}
+		specs = append(specs, o)
+	}
 	specs = append(specs, &optsSpec{NoWithTx: true, NoWithScripts: true})
 	specs = append(specs, &optsSpec{NoWithTx: true})
 	for _, p := range pool {
